@@ -313,11 +313,15 @@ def select_inputs(ctx):
     fixy = [u for u in units if u["check"] in with_fix_checks or u["golden"]]
     others = [u for u in units if u not in fixy]
     if ctx.quick:
-        base = fixy + vlib.sample(ctx, others, 12)
-        var_units = {v: vlib.sample(ctx, fixy, 8) for v in VARIANTS}
+        base = fixy + vlib.sample(ctx, others, 8)
+        var_units = {v: vlib.sample(ctx, fixy, 6) for v in VARIANTS}
     else:
         base = units
         var_units = {v: units for v in VARIANTS}
+        cap = int(os.environ.get("C16_CAP", "0"))
+        if cap:   # smoke test of the thorough path only (not a registered mode)
+            base = vlib.sample(ctx, units, cap)
+            var_units = {v: vlib.sample(ctx, units, max(1, cap // 4)) for v in VARIANTS}
     return units, base, var_units, with_fix_checks
 
 
@@ -456,14 +460,10 @@ def negative_selftest(ctx, art):
             and art.diags[fx["diag"] - 1]["eoff"] > art.diags[fx["diag"] - 1]["off"]]
     base = (wide or cand)[len(wide or cand) // 2]
     d0 = art.diags[base["diag"] - 1]
-    results = []
+    results, corrupted = [], []
     for kind in ("overlap", "oob", "endbeforestart", "column"):
-        a = Artefact()
-        a.files = art.files
         d = copy.deepcopy(d0)
-        d["id"] = 1
         fx = copy.deepcopy(base)
-        fx["id"], fx["diag"] = 1, 1
         size = art.files[fx["edits"][0]["file"] - 1]["size"]
         if kind == "overlap":
             e = copy.deepcopy(fx["edits"][0])
@@ -485,17 +485,25 @@ def negative_selftest(ctx, art):
             lt = art.files[d["file"] - 1]["lines"]
             d["col"] = lt[d["line"] - 1] + 5
             fx["edits"] = []
-        a.diags = [d]
-        a.fixes = [fx]
+        a = Artefact()
+        a.files = art.files
+        d["id"], fx["id"], fx["diag"] = 1, 1, 1
+        a.diags, a.fixes = [d], [fx]
         r = tlc_obs(ctx, a, strict=True)
         if r.violated != "GeometryHolds":
             raise Inconclusive("negative self-test: TLC accepted a recorded artefact corrupted by %r (%s)" % (kind, r.violated))
-        # and the verdict channel must say the same
-        dv, fv, _, _ = tlc_obs(ctx, a)
-        ok = dv[1]["pos"] and dv[1]["end"] and all(fv[1][k] for k in ("onefile", "inbounds", "disjoint", "editpos"))
-        if ok:
-            raise Inconclusive("negative self-test: verdict channel accepted corruption %r" % kind)
+        corrupted.append((kind, d, fx))
         results.append(kind)
+    # the verdict channel must say the same (one run over all corrupted artefacts)
+    a = Artefact()
+    a.files = art.files
+    for i, (kind, d, fx) in enumerate(corrupted):
+        a.diags.append(dict(d, id=i + 1))
+        a.fixes.append(dict(fx, id=i + 1, diag=i + 1))
+    dv, fv, _, _ = tlc_obs(ctx, a)
+    for i, (kind, d, fx) in enumerate(corrupted):
+        if dv[i + 1]["pos"] and dv[i + 1]["end"] and all(fv[i + 1][k] for k in ("onefile", "inbounds", "disjoint", "editpos")):
+            raise Inconclusive("negative self-test: verdict channel accepted corruption %r" % kind)
     if len(results) < 3:
         raise Inconclusive("negative self-test: only %s corruptions were applicable" % results)
     return results
@@ -529,13 +537,20 @@ def run(ctx):
     if ctx.replay:
         return replay(ctx, helper)
 
+    import time
+    phases = {}
+    t0 = time.time()
     # 0. the laws of the Fixes state machine, exhaustively on the small universe
     lawr, lawcfg = laws(ctx)
+    phases["laws"] = round(time.time() - t0, 1)
+    t0 = time.time()
 
     # 1-3. recorded diagnostics and fixes
     units, base, var_units, with_fix_checks = select_inputs(ctx)
     rp = [p for p in repo_packages() if "/testdata" not in p]
     repo_sel = vlib.sample(ctx, rp, 5) if ctx.quick else rp
+    if not ctx.quick and os.environ.get("C16_CAP"):
+        repo_sel = vlib.sample(ctx, rp, 3)
     jobs = make_jobs(ctx, helper, base, var_units, repo_sel)
     stats = new_stats()
     art, dver, fver, _ = analyse(ctx, helper, jobs, "main", stats)
@@ -543,15 +558,21 @@ def run(ctx):
         raise Inconclusive("recorded only %d diagnostics / %d fixes; job errors: %s" % (stats["diagnostics"], stats["fixes"], stats["job_errors"][:3]))
     if stats["job_errors"]:
         raise Inconclusive("runner failed on %d jobs: %s" % (len(stats["job_errors"]), stats["job_errors"][:3]))
+    phases["record+obs+typecheck"] = round(time.time() - t0, 1)
+    t0 = time.time()
     neg = negative_selftest(ctx, art)
+    phases["negative_selftest"] = round(time.time() - t0, 1)
+    t0 = time.time()
 
     # 4. behaviour
     beh = C16_behaviour.run_behaviour(ctx, helper, sys.modules[__name__])
 
+    phases["behaviour"] = round(time.time() - t0, 1)
     fix_checks_seen = sorted(stats["fix_cats"])
     sample_fix = next((m for fx, m in zip(art.fixes, art.fmeta) if len(fx["edits"]) > 1), art.fmeta[0])
     ctx.coverage = {
-        "evaluations": stats["diagnostics"] + stats["fixes"] + beh["executions"],
+        "evaluations": stats["diagnostics"] + stats["fixes"] + beh["generated_package_diagnostics"] + beh["generated_package_fixes"] + beh["executions"],
+        "phase_wall_s": phases,
         "distinct_nontrivial": len({(m["diag"]["cat"], norm_msg(m["fix"]["msg"]), len(m["fix"]["edits"])) for m in art.fmeta}) + beh["cases_with_fix"],
         "rule": "evaluations = recorded diagnostics + recorded suggested fixes (each judged by TLC/FixesObs, each fix spliced and sent to go/parser+go/types) "
                 "+ native executions of behaviour cases (original and fixed function x input vector). distinct_nontrivial = distinct (check, fix message shape, "
